@@ -50,6 +50,25 @@ def _psem_call(I, self_obj, args, kwargs):
 
 PSEM = ext_class("psem", fields={"is_locked": T.bool}, locked=field("is_locked"))
 PSEM.methods["__call__"] = ExtMethod("__call__", fn=_psem_call)
+# the same semaphore through its explicit API: acquire(priority) suspends (and may be cancelled while waiting,
+# in which case no slot is held); release() gives a slot back -- the bounded semaphore raises ValueError when
+# more slots are released than were acquired
+PSEM.methods["acquire"] = ExtMethod("acquire", effect=True, is_async=True, returns=lambda I, s, a, k: True)
+PSEM.methods["release"] = ExtMethod("release", effect=True)
+
+
+def slot_requests(fx):
+    """priority of every request for a send slot, whichever API was used"""
+    return [{"priority": (r[3]["priority"] if "priority" in r[3] else (r[2][0] if len(r[2]) > 0 else 0))}
+            for r in fx if r[0] == "psem.acquire_request" or (r[0] == "call" and r[1] == "psem.acquire")]
+
+
+def slots_acquired(fx):
+    return [r for r in fx if r[0] == "await" and r[1] in ("psem_cm.__aenter__", "psem.acquire") and r[2] == "return"]
+
+
+def slots_released(fx):
+    return [r for r in fx if r[0] in ("psem_cm.__aexit__", "psem.release")]
 
 # schema objects: a dict schema (name -> type) or a struct class with deserialize()
 STRUCT_SCHEMA = ext_class(
@@ -313,7 +332,7 @@ def _(c):
     # "queued commands start in priority order": the slot is requested with this command's class
     c.ensures(
         "post.priority_class_requested",
-        lambda fx: [r[3] for r in fx if r[0] == "psem.acquire_request"]
+        lambda fx: slot_requests(fx)
         == [{"priority": p} for p in rets(fx, "bellows.ezsp.protocol.ProtocolHandler._get_command_priority")]
         and len(rets(fx, "bellows.ezsp.protocol.ProtocolHandler._get_command_priority")) == 1,
         on="any",
@@ -324,13 +343,12 @@ def _(c):
         "post.sends_only_while_holding_slot",
         lambda fx: [r[0] for r in fx if r[0] in ("await", "gw.send_data")][:1] != ["gw.send_data"]
         and all(r[2] == "return" for r in awaits_of(fx)[:1] if len(ext_calls(fx, "gw.send_data")) > 0)
-        and all(r[1] == "psem_cm.__aenter__" for r in awaits_of(fx)[:1]),
+        and all(r[1] in ("psem_cm.__aenter__", "psem.acquire") for r in awaits_of(fx)[:1]),
         on="any",
     )
     c.ensures(
         "post.slot_released",
-        lambda fx: len(ext_calls(fx, "psem_cm.__aexit__"))
-        == len([r for r in awaits_of(fx) if r[1] == "psem_cm.__aenter__" and r[2] == "return"]),
+        lambda fx: len(slots_released(fx)) == len(slots_acquired(fx)),
         on="any",
     )
     # at the moment the request is handed to the link: the frame carries the sequence number the call
@@ -438,6 +456,14 @@ def _one_command_slot(tier):
 from contracts import index as _index
 
 _index.extra("C06")(_one_command_slot)
+
+# C06 / C08 rest on the dispatch table being the inverse of the active version's COMMANDS ("frames that answer no
+# pending call", "a known frame of the active version"): the contracts treat the table as symbolic, this ties it
+# to what the real constructor builds for every version
+from contracts.tables import by_id_obligations  # noqa: E402
+
+_index.extra("C06")(by_id_obligations)
+_index.extra("C08")(by_id_obligations)
 
 
 def pos(fx, r):
